@@ -9,6 +9,7 @@ import (
 	"github.com/hashicorp/hcl-lang/schema"
 	"github.com/hashicorp/hcl/v2"
 	"github.com/hashicorp/hcl/v2/hclsyntax"
+	"github.com/hashicorp/hcl/v2/json"
 	"github.com/zclconf/go-cty/cty"
 )
 
@@ -124,6 +125,21 @@ func dependencyKeysFromBlock(block *hcl.Block, blockSchema blockSchema) schema.D
 					continue
 				}
 
+				if traversal, ok := jsonReferenceTraversal(attr.Expr); ok {
+					addr, err := lang.TraversalToAddress(traversal)
+					if err != nil {
+						// skip unparsable traversal
+						continue
+					}
+					dk.Attributes = append(dk.Attributes, schema.AttributeDependent{
+						Name: name,
+						Expr: schema.ExpressionValue{
+							Address: addr,
+						},
+					})
+					continue
+				}
+
 				var diags hcl.Diagnostics
 				value, diags = attr.Expr.Value(nil)
 				if len(diags) > 0 && value.IsNull() {
@@ -152,4 +168,27 @@ func dependencyKeysFromBlock(block *hcl.Block, blockSchema blockSchema) schema.D
 		}
 	}
 	return dk
+}
+
+// jsonReferenceTraversal returns the traversal of a JSON string
+// consisting of a single interpolated reference ("${var.foo}"),
+// which is how a reference is written in JSON syntax.
+//
+// As in collection of reference origins, given the limited AST/API
+// access to JSON we can only guess by comparing the ranges.
+func jsonReferenceTraversal(expr hcl.Expression) (hcl.Traversal, bool) {
+	if !json.IsJSONExpression(expr) {
+		return nil, false
+	}
+	vars := expr.Variables()
+	if len(vars) != 1 {
+		return nil, false
+	}
+	tRange := vars[0].SourceRange()
+	eRange := expr.Range()
+	// account for "${ and }"
+	if tRange.Start.Byte-3 != eRange.Start.Byte || tRange.End.Byte+2 != eRange.End.Byte {
+		return nil, false
+	}
+	return vars[0], true
 }
